@@ -11,9 +11,14 @@ def x_db_store():
     if not m:
         raise Broken("db.go: func Open not found")
     o = m.group(1)
-    mo = re.search(r'db, err := badger\.Open\((badger\.DefaultOptions\(path\)[^\n]*)\)\n\s*if err != nil \{\s*return nil, fmt\.Errorf\("failed to open database: %w", err\)\s*\}\s*return &Database\{\s*db: db,\s*\}, nil', o)
+    mo = re.search(r'db, err := badger\.Open\((badger\.DefaultOptions\(path\)[^\n]*)\)\n'
+                   r'(\s*if err != nil \{\n(?:\s*//[^\n]*\n)*\s*db, err = badger\.Open\((badger\.DefaultOptions\(path\)[^\n]*)\)\n\s*\}\n)?'
+                   r'\s*if err != nil \{\s*return nil, fmt\.Errorf\("failed to open database: %w", err\)\s*\}\s*return &Database\{\s*db: db,\s*\}, nil', o)
     if not mo:
-        raise Broken("db.go: Open is no longer `badger.Open(badger.DefaultOptions(path)...)` with the error returned")
+        raise Broken("db.go: Open is no longer `badger.Open(badger.DefaultOptions(path)...)` (optionally tried once more) with the error returned")
+    if mo.group(2) and mo.group(3) != mo.group(1):
+        raise Broken("db.go: Open retries with different options")
+    info["open_retries_once"] = bool(mo.group(2))
     opts = mo.group(1)
     info["open_options"] = opts
     default = opts == "badger.DefaultOptions(path)"
